@@ -4,7 +4,7 @@ import os
 
 from analyzer import lin
 from analyzer.facts import strip_generics
-from analyzer.graph import Graph, node_str
+from analyzer.graph import Graph, ArgGraph, node_str
 
 
 class Finding:
@@ -117,7 +117,10 @@ def callee_endswith(*sufs):
 def graph_of(eng):
     g = getattr(eng, "_graph", None)
     if g is None:
-        g = Graph(eng.edges, eng.nodes.keys())
+        if getattr(eng, "arg_proj", None):
+            g = ArgGraph(eng.edges, eng.nodes.keys(), eng.arg_proj, eng.arg_edges)
+        else:
+            g = Graph(eng.edges, eng.nodes.keys())
         eng._graph = g
     return g
 
@@ -323,16 +326,21 @@ def place_prefix_types(prog, body, place):
 
 
 def static_field_writes(prog, adt_path, field_idx):
-    """all MIR assignments / call destinations / &mut borrows of field `field_idx` of struct `adt_path`
-    (closure captures included: a closure holding `&mut self.field` shows up as a &mut borrow)"""
+    """all MIR assignments / call destinations / &mut borrows of field `field_idx` (an index, or a path of indices through
+    nested private structs) of struct `adt_path` (closure captures included: a closure holding `&mut self.field` shows up
+    as a &mut borrow)"""
     out = []
+    fpath = tuple(field_idx) if isinstance(field_idx, (tuple, list)) else (field_idx,)
     for bp, b in prog.bodies.items():
         for bi, blk in enumerate(b.blocks):
             def touches(place):
-                for ti, pr in place_prefix_types(prog, b, place):
-                    if isinstance(pr, dict) and pr.get("f") == field_idx and ti is not None and prog.types[ti]["k"] == "adt" \
-                            and prog.types[ti]["path"] == adt_path:
-                        return True
+                elems = list(place_prefix_types(prog, b, place))
+                for k, (ti, pr) in enumerate(elems):
+                    if isinstance(pr, dict) and "f" in pr and ti is not None and prog.types[ti]["k"] == "adt" and prog.types[ti]["path"] == adt_path:
+                        got = tuple(x[1]["f"] for x in elems[k:k + len(fpath)] if isinstance(x[1], dict) and "f" in x[1])
+                        # a write to the whole helper struct (a proper prefix of the path) also writes the field
+                        if got == fpath[:len(got)] and (len(got) == len(fpath) or k + len(got) == len(elems)):
+                            return True
                 return False
             for st in blk["stmts"]:
                 if st["k"] == "assign":
@@ -394,3 +402,141 @@ def event_at(eng, node):
 def field_sym(eng, root, path, rng=None):
     """symbol id of the lazily-initialised integer at a memory place (or None)"""
     return eng.sym_ids.get(("init", root, tuple(path)))
+
+
+def import_clause(world, tier, clause, module, cid, keys, what):
+    """re-check clause `cid` of another property's rule and report its findings whose key contains one of `keys`
+    (a shared structural clause that is a necessary condition of both properties)"""
+    r = module.check(world, tier)
+    found = False
+    for cl in r.clauses:
+        if cl.id == cid:
+            found = True
+            bad = [f_ for f_ in cl.findings if any(k in f_.key for k in keys)]
+            for f_ in bad:
+                clause.ob(False, "via " + f_.key, f_.msg, f_.site)
+            clause.ob(not bad, "%s via %s" % (what, cid), "", sample={cid: ", ".join(keys)})
+    if not found:
+        clause.fail("anchor-lost clause %s" % cid, "shared clause %s not produced" % cid)
+
+
+def field_ref_sinks(prog, adt_path, field_idx):
+    """Who may touch a (private) field: interprocedural flow of references to `adt_path`.field_idx over the MIR of the
+    whole crate. Sources: every borrow of a place that goes through the field. Flow: moves/copies/reborrows of such
+    references, closure captures (the capturing closure's body is followed through its upvar), arguments of crate-local
+    callees (followed into the callee's parameter), references returned by crate-local callees (followed into the
+    caller's destination). Sinks: calls of non-local callees that receive such a reference; `<return>` marks a function
+    that hands such a reference to its caller.
+    Returns [(body path, callee base name or '<return>', loc, mutable borrow?, block)]"""
+    tainted = {}      # body path -> {local: mutable?}
+    upv = {}          # closure def -> {upvar index: mutable?}
+    rets = {}         # body path -> mutable?  (returns a reference derived from the field)
+    sinks = {}
+
+    def through_field(b, place):
+        for ti, pr in place_prefix_types(prog, b, place):
+            if isinstance(pr, dict) and pr.get("f") == field_idx and ti is not None and prog.types[ti]["k"] == "adt" and prog.types[ti]["path"] == adt_path:
+                return True
+        return False
+
+    def upvar_of(b, place):
+        """index of the captured variable a place of a closure body goes through, if any"""
+        if place["l"] != 1 or b.kind != "closure":
+            return None
+        for pr in place["p"]:
+            if pr == "deref":
+                continue
+            if isinstance(pr, dict) and "f" in pr:
+                return pr["f"]
+            return None
+        return None
+
+    def only_upvar(place, u):
+        return all(x == "deref" or (isinstance(x, dict) and x.get("f") == u) for x in place["p"])
+
+    progress = True
+    rounds = 0
+    while progress and rounds < 50:
+        progress = False
+        rounds += 1
+        for bp, b in prog.bodies.items():
+            T = tainted.setdefault(bp, {})
+
+            def mark(l, m):
+                if l not in T or (m and not T[l]):
+                    T[l] = bool(m) or T.get(l, False)
+                    return True
+                return False
+
+            def operand_taint(op):
+                pl = op.get("copy") or op.get("move")
+                if pl is None:
+                    return None
+                if pl["l"] in T and not pl["p"]:
+                    return T[pl["l"]]
+                u = upvar_of(b, pl)
+                if u is not None and u in upv.get(bp, {}) and only_upvar(pl, u):
+                    return upv[bp][u]
+                return None
+
+            changed = True
+            while changed:
+                changed = False
+                for bi, blk in enumerate(b.blocks):
+                    for st in blk["stmts"]:
+                        if st["k"] != "assign":
+                            continue
+                        rv = st["rv"]
+                        dst = st["place"]
+                        src_m = None
+                        if rv["k"] == "ref":
+                            pl = rv["place"]
+                            if through_field(b, pl):
+                                src_m = bool(rv.get("mut"))
+                            elif pl["l"] in T and pl["p"][:1] == ["deref"]:
+                                src_m = T[pl["l"]] and bool(rv.get("mut"))
+                            else:
+                                u = upvar_of(b, pl)
+                                if u is not None and u in upv.get(bp, {}):
+                                    src_m = upv[bp][u] and bool(rv.get("mut", True))
+                        elif rv["k"] in ("use", "cast"):
+                            src_m = operand_taint(rv["op"])
+                        elif rv["k"] == "agg" and rv.get("ak", {}).get("t") == "closure":
+                            cdef = rv["ak"]["def"]
+                            for k, op in enumerate(rv.get("ops", [])):
+                                m = operand_taint(op)
+                                if m is not None:
+                                    d = upv.setdefault(cdef, {})
+                                    if k not in d or (m and not d[k]):
+                                        d[k] = m
+                                        progress = True
+                        if src_m is not None and not dst["p"]:
+                            if mark(dst["l"], src_m):
+                                changed = True
+                                progress = True
+                    t = blk["term"]
+                    if t["k"] == "call":
+                        fn = t["fn"]
+                        callee = fn.get("resolved") or fn.get("def", "?")
+                        local = callee in prog.bodies and prog.bodies[callee].kind != "closure"
+                        if local and callee in rets and not t["dest"]["p"]:
+                            if mark(t["dest"]["l"], rets[callee]):
+                                changed = True
+                                progress = True
+                        for i, a in enumerate(t["args"]):
+                            m = operand_taint(a)
+                            if m is None:
+                                continue
+                            if local:
+                                ct = tainted.setdefault(callee, {})
+                                if (i + 1) not in ct or (m and not ct[i + 1]):
+                                    ct[i + 1] = m
+                                    progress = True
+                            else:
+                                sinks[(bp, bi, i)] = (bp, strip_generics(callee), b.loc(bi), m, bi)
+            if 0 in T and b.kind != "closure":
+                if bp not in rets or (T[0] and not rets[bp]):
+                    rets[bp] = T[0]
+                    progress = True
+                sinks[(bp, "ret")] = (bp, "<return>", b.loc(0), T[0], -1)
+    return sorted(sinks.values(), key=repr)
